@@ -484,6 +484,25 @@ class Suite:
             if not all(abs(a - b) <= 1e-12 for a, b in zip(out, real)):
                 self.diverge(family, 'rotation of the drawn point', ans, out, [float(v) for v in real])
                 return
+            # the whole jump: what jump() returns, in the coordinates of the object's convention, against the
+            # rotated unit vector expressed in that convention by the harness's own conversion (azimuth in
+            # [0, 2 pi) or [0, 360), polar angle / declination, radians / degrees)
+            q = copy.deepcopy(p0)
+            q._verif_gen = Q.Gen(_PairPlan(u1, u2))
+            got = q.jump(x)
+            self.cov['jumps'] += 1
+            want = Q.from_cart(p0, numpy.asarray(real, dtype=float))
+            period = 360.0 if p0.isdegs else 2 * math.pi
+            g0, g1 = float(got[names[0]]), float(got[names[1]])
+            d0 = abs(g0 - want[0])
+            self.br('sphere jump: radec=%d degs=%d' % (p0.isradec, p0.isdegs))
+            # (a point within rounding of the pole or of azimuth 0 may come out on the other side of the wrap)
+            near_pole = abs(abs(float(real[2])) - 1.0) < 1e-9
+            if not ((min(d0, period - d0) <= 1e-9 * period or near_pole) and abs(g1 - want[1]) <= 1e-7 * period
+                    and -1e-12 <= g0 <= period * (1 + 1e-12)):
+                self.diverge(family, 'jump output in the coordinates of the convention (radec=%r, degs=%r)' % (
+                    p0.isradec, p0.isdegs), 'jump from %r with u=(%r, %r)' % (x, u1, u2), list(want), [g0, g1])
+                return
 
     def eigen_jump(self, family, p0, x):
         names = list(p0.parameters)
@@ -724,14 +743,17 @@ def run_suite(seed, tier):
         sym_flags(S)
         for family in sorted(F.FAMILIES):
             cls, kind, lo, hi = F.FAMILIES[family]
-            for j in range(per_family):
+            # (one more instance of the solid-angle families in the quick tier: all four conventions)
+            for j in range(per_family + (1 if quick and family in Q.SPHERE else 0)):
                 n = lo + j % (hi - lo + 1)
                 steps = [0, 4, 9, 2][j % 4] if family in F.ADAPTIVE else 0
                 same = kind == 'intbox' and j % 2 == 1
                 try:
+                    # the solid-angle families in all four angle conventions (radec, degs)
+                    conv = Q.CONVENTIONS[(j + seed) % 4] if family in Q.SPHERE else None
                     p0, names, doms, kind_ = Q.build(family, rng, n, steps, ['AR', 'A', 'R', 'AAR'][j % 4],
                                                      None if j % 3 else 'off', seed=rng.randrange(1000),
-                                                     same_bounds=same)
+                                                     same_bounds=same, conv=conv)
                 except ValueError as e:
                     S.diverge(family, 'real code raised while adapting', 'build %d' % j, 'no exception', repr(e)[:300])
                     continue
